@@ -518,8 +518,13 @@ class SkipStream(Stream):
     def corpus(self):
         N = None
         return [
-            # finding: failed required -> default skip outputs omit it
+            # regression (fixed finding, ac1cb29): failed required -> default skip outputs must contain it
             {"std": [N, N, N, N, N, True], "custom": [], "user": None, "conf": [], "kind": "required-failed"},
+            {"std": [N, N, N, N, N, True], "custom": [True], "user": None, "conf": [], "kind": "required-failed"},
+            {"std": [N, N, N, N, N, N], "custom": [N], "user": ["and", ["v", 5], ["v", 6]], "conf": [],
+             "kind": "required-failed"},
+            {"std": [N, N, N, N, N, N], "custom": [], "user": ["and", ["v", 4], ["v", 5]], "conf": [],
+             "kind": "both-required"},
             {"std": [N, N, N, N, True, N], "custom": [True, False], "user": None, "conf": []},
             {"std": [N, N, N, N, False, N], "custom": [True], "user": None, "conf": []},
             {"std": [N, N, N, N, False, N], "custom": [True], "user": None, "conf": [5]},
@@ -616,12 +621,21 @@ class SkipStream(Stream):
         if (bx.SUCCEEDED in out) == (bx.FAILED in out):
             return f"skip mode outputs {sorted(out)} do not contain exactly one of succeeded/failed"
         if not c["conf"]:
-            missing = [o for o in self._required(c) if o not in out]
+            req = self._required(c)
+            # an expression that requires BOTH succeeded and failed cannot be satisfied together with
+            # "exactly one of succeeded/failed"; every other required output must be there
+            both = bx.SUCCEEDED in req and bx.FAILED in req
+            missing = [o for o in req if o not in out
+                       and not (both and o in (bx.SUCCEEDED, bx.FAILED))]
             if missing:
                 return ("default skip-mode outputs omit required output(s) "
                         + ", ".join(bx.trig(o) for o in missing))
-            if c.get("user") is None:
-                # outputs the graph marks required ("all required outputs will be generated")
+            if (bx.FAILED in out) != (bx.FAILED in req):
+                return "default skip mode should produce failed exactly when failed is a required output"
+            fail_tol = c["std"][bx.SUCCEEDED] is False or c["std"][bx.FAILED] is False
+            if c.get("user") is None and not (fail_tol and bx.FAILED in req):
+                # outputs the graph marks required ("all required outputs will be generated");
+                # excluded: failure tolerated and yet `failed` necessary (then failed alone completes)
                 flagged = [i for i, f in enumerate(c["std"] + c["custom"])
                            if f is True and i not in (bx.SUCCEEDED, bx.FAILED) and i not in out]
                 if flagged:
@@ -642,7 +656,7 @@ class SkipStream(Stream):
 
     def classify(self, c, r, failure):
         if failure == "default skip-mode outputs omit required output(s) failed":
-            return "skip:default-omits-required-failed"
+            return "skip:default-omits-required-failed"      # the finding fixed by ac1cb29
         return "skip:" + ("conf" if c["conf"] else "default")
 
     def shrink(self, c):
@@ -670,8 +684,9 @@ META = {
         "(expired/submit-failed absent), which by monotonicity is iff it is false in EVERY such state; optional iff "
         "referenced and not required; None iff unreferenced; the consistency decision equals the documented 9-row table and "
         "acceptance implies graph-required outputs are necessary; skip-mode default outputs contain every required output "
-        "other than `failed`, plus exactly one of succeeded/failed (the `failed` exception is proved as a refutation of the "
-        "literal statement and reported as a known finding). Tied to the code by in-Coq comparison on exhaustive small "
+        "plus exactly one of succeeded/failed (failed iff configured or itself required; only an expression requiring both "
+        "succeeded and failed is excluded, where the two clauses contradict each other), and for default expressions every "
+        "graph-required output. Tied to the code by in-Coq comparison on exhaustive small "
         "expression boxes, real WorkflowConfig validation runs and real process_outputs runs."),
     "level_note": (
         "hand model; expression text <-> tree conversion is in the harness; string-level pre-checks of validation and the "
